@@ -14,6 +14,7 @@ import (
 	"strings"
 	"time"
 
+	"github.com/thushan/olla/internal/config"
 	"github.com/thushan/olla/internal/core/domain"
 	"github.com/thushan/olla/internal/zz_verif/stack"
 	"github.com/thushan/olla/internal/zz_verif/vlib"
@@ -28,6 +29,7 @@ type EPSpec struct {
 	Prio   int             `json:"prio"`
 	Status string          `json:"status,omitempty"` // initial repository status override ("" = healthy)
 	Open   bool            `json:"open,omitempty"`   // engine circuit breaker pre-opened by a request history
+	PreFail int            `json:"prefail,omitempty"` // olla engine: this many earlier failures recorded by the endpoint's breaker (below its threshold)
 	Beh    stack.Behaviour `json:"beh"`
 }
 
@@ -41,6 +43,7 @@ type Scenario struct {
 	ReqBody  string   `json:"req_body"`
 	Clients  int      `json:"clients,omitempty"` // concurrent identical clients (default 1)
 	Followup bool     `json:"followup,omitempty"` // after the request: every backend works again, one more request is sent
+	ReadTimeoutMs int `json:"read_timeout_ms,omitempty"` // proxy.read_timeout for this stack (default: product default)
 }
 
 type ClientObs struct {
@@ -100,7 +103,7 @@ func observeClient(r *stack.Resp) ClientObs {
 // OpenBreaker drives the olla engine's per-endpoint breaker open with a request history:
 // the backend answers with an immediate close (non-connection error class) until the breaker trips.
 // Returns the number of priming requests that reached the backend.
-func openBreaker(s *stack.Stack, sc *Scenario, idx int, backends []*stack.Backend) int {
+func openBreaker(s *stack.Stack, sc *Scenario, idx int, backends []*stack.Backend, limit int) int {
 	// isolate the endpoint: everyone else not routable
 	for j, e := range sc.EPs {
 		if j != idx {
@@ -110,7 +113,7 @@ func openBreaker(s *stack.Stack, sc *Scenario, idx int, backends []*stack.Backen
 	b := backends[idx]
 	b.SetBehaviour(stack.Behaviour{Kind: "close0"})
 	n := 0
-	for i := 0; i < 12; i++ {
+	for i := 0; i < limit; i++ {
 		before := b.Count()
 		stack.Do(s.Addr, stack.Request("POST", "/olla/proxy/v1/chat/completions", s.Addr, [][2]string{{"Content-Type", "application/json"}}, []byte(`{"prime":true}`), false), 2*time.Second)
 		s.SetStatus(sc.EPs[idx].Name, domain.StatusHealthy)
@@ -146,7 +149,11 @@ func Run(sc *Scenario) *Obs {
 			b.Close()
 		}
 	}()
-	s, err := stack.Start(stack.Opts{Engine: sc.Engine, Balancer: sc.Balancer, Profile: sc.Profile, EPs: eps})
+	s, err := stack.Start(stack.Opts{Engine: sc.Engine, Balancer: sc.Balancer, Profile: sc.Profile, EPs: eps, Mutate: func(c *config.Config) {
+		if sc.ReadTimeoutMs > 0 {
+			c.Proxy.ReadTimeout = time.Duration(sc.ReadTimeoutMs) * time.Millisecond
+		}
+	}})
 	if err != nil {
 		obs.StartErr = err.Error()
 		return obs
@@ -155,7 +162,9 @@ func Run(sc *Scenario) *Obs {
 	// stats baselines (priming requests must not count)
 	for i, e := range sc.EPs {
 		if e.Open {
-			openBreaker(s, sc, i, backends)
+			openBreaker(s, sc, i, backends, 12)
+		} else if e.PreFail > 0 {
+			openBreaker(s, sc, i, backends, e.PreFail)
 		}
 	}
 	for i, e := range sc.EPs {
